@@ -953,6 +953,16 @@ def _run(res, tier, seed, rng, progs, shaped):
             except Exception as exc:
                 res.internal_errors.append({"what": f"site output stage: {type(exc).__name__}: {exc}"})
             res.extra.setdefault("stage_wall_s", {})["output-in-process"] = round(_time.time() - _t, 1)
+            # a cache file in play (props/c16cache.py): every state of the cache path x -r x the settings
+            from props import c16cache
+            _t = _time.time()
+            cache_finish = lambda: None  # noqa: E731
+            try:
+                cache_finish = c16cache.run_cache_stage(res, model, base / "cachestage", random.Random(seed * 32452843 + 11), tier, seed,
+                                                        differing_flags, inproc_map, lambda fn, *a: pool.ex.submit(fn, *a), cov=cov)
+            except Exception as exc:
+                res.internal_errors.append({"what": f"cache stage: {type(exc).__name__}: {exc}"})
+            res.extra["stage_wall_s"]["cache-in-process"] = round(_time.time() - _t, 1)
             _t = _time.time()
             suspicious = light_judge_all(res, model, light, cov=cov)      # in-process, while the CLI runs proceed
             res.extra["stage_wall_s"]["site-light"] = round(_time.time() - _t, 1)
@@ -968,6 +978,12 @@ def _run(res, tier, seed, rng, progs, shaped):
                 res.extra["stage_wall_s"]["output-cli"] = round(_time.time() - _t, 1)
             except Exception as exc:
                 res.internal_errors.append({"what": f"output stage (cli): {type(exc).__name__}: {exc}"})
+            _t = _time.time()
+            try:
+                cache_finish()
+                res.extra["stage_wall_s"]["cache-cli"] = round(_time.time() - _t, 1)
+            except Exception as exc:
+                res.internal_errors.append({"what": f"cache stage (cli): {type(exc).__name__}: {exc}"})
         finally:
             pool.close()
     # the whole `main` as ONE Lean model (Pipeline ∘ Diag) against the real one, per setting
@@ -1009,6 +1025,10 @@ def replay(path):
     prog, a = case.get("program"), case.get("analysis_cfg")
     if not prog or not a:
         return 0
+    if "cache_state" in case:
+        from props import c16cache
+        with dc.scratch_dir("rattr-c16-replay-") as base:
+            return c16cache.replay_case(case, base.resolve())
     if "spelling" in case and "site_items" not in prog:
         from props import c16out
         with dc.scratch_dir("rattr-c16-replay-") as base:
